@@ -35,6 +35,8 @@ ASSUME ~StrNumUnsure("") /\ ~StrNumUnsure("abc") /\ ~StrNumUnsure("10") /\ StrNu
 ASSUME NumToStr(N(10)) = <<TRUE, "10">> /\ NumToStr(NZero) = <<TRUE, "-0">> /\ NumToStr(N(-7)) = <<TRUE, "-7">> /\ NumToStr(Inf) = <<TRUE, "inf">> /\ NumToStr(NInf) = <<TRUE, "-inf">> /\ ~NumToStr(NaN)[1]
 ASSUME NumToStr(D_("2.5")) = <<TRUE, "2.5">> /\ NumToStr(D_("0.1")) = <<TRUE, "0.1">> /\ NumToStr(D_("1e3")) = <<TRUE, "1000">> /\ NumToStr(D_("99999999999999")) = <<TRUE, "99999999999999">> /\ ~NumToStr(D_("1e14"))[1]
 ASSUME ~NumToStr(FDiv(One, N(3)))[1] /\ ~NumToStr(D_("0.00001"))[1] /\ NumToStr(D_("0.0001")) = <<TRUE, "0.0001">> /\ ~NumToStr(FAdd(D_("0.1"), D_("0.2")))[1] /\ NumToStr(D_("-1.25")) = <<TRUE, "-1.25">> /\ NumToStr(D_("123456.789")) = <<TRUE, "123456.789">>
+ASSUME SeqIndexOf(<<"a", "b", "a">>, "a") = 1 /\ SeqIndexOf(<<"a", "b">>, "c") = 0 /\ SeqIndexOf(<<>>, "c") = 0 /\ SeqIndexOf(<<[t |-> "num", hi |-> 1, lo |-> 0, s |-> ""], [t |-> "str", hi |-> 0, lo |-> 0, s |-> "k"]>>, [t |-> "str", hi |-> 0, lo |-> 0, s |-> "k"]) = 2
+ASSUME \A x \in {"a", "b", "c"} : SeqIndexOf(<<"b", "c", "b">>, x) = SeqIndexFrom(<<"b", "c", "b">>, x, 1)
 ASSUME IntStr(12) = "12" /\ IntStr(-3) = "-3" /\ StrHasPrefix("ext1", "ext") /\ ~StrHasPrefix("ex", "ext")
 ASSUME FmtParse("a%sb%d%%") = << <<"lit", "a">>, <<"s", "">>, <<"lit", "b">>, <<"d", "">>, <<"lit", "%">> >> /\ FmtParse("%5d")[1][1] = "bad" /\ FmtParse("") = <<>>
 ASSUME PrintT(<<"all IEEE754 assumptions hold", Inf, NaN, NZero, FOfDecimal("0.1")>>)
